@@ -7,7 +7,7 @@
    splitting (signed permutation of the unknowns) is decided on the real code
    by the search oracle at the property's tolerance schedule. *)
 From Coq Require Import ZArith List Bool Arith Reals.
-From PM Require Import Base.Num Base.RNum Base.Cplx Gen.Tables Model.Kernel Model.Topology Proofs.KernelP Proofs.GeometryR Proofs.TopologyP.
+From PM Require Import Base.Num Base.RNum Base.Cplx Gen.Tables Model.Kernel Model.Topology Proofs.KernelP Proofs.GeometryR Proofs.TopologyP Model.Attach Proofs.AttachP.
 Import ListNotations.
 
 Theorem C06_tables_symmetric :
@@ -29,3 +29,15 @@ Theorem C06_junction_sense :
     (forall j e2 s, snd st = Joined j e2 s -> s = negb (Bool.eqb e2 true)).
 Proof. intros N. exact (scan_same). Qed.
 Print Assumptions C06_junction_sense.
+
+(* recorded finding C06-partial-load-at-multiwire-junction, as a theorem about the attachment model (Model/Attach.v):
+   when k later wires join the end of wire 0 and only wire 0 carries a distributed load, its end half-segment is a half of
+   each of the k junction pulses and is charged k times -- once if wire 0 is listed last instead.  The loaded length depends
+   on the order of the wires as soon as k >= 2 (a junction of three or more wire ends). *)
+Theorem C06_multiwire_junction_overcount_refuted :
+  forall k : nat,
+    let loaded := fun g => Nat.eqb g 0 in
+    let pulses := map (fun j => mkAP (S j) 0 (S j)) (seq 0 k) in
+    fold_right Nat.add 0%nat (map (fun p => charged loaded (seq 0 (S k)) p false) pulses) = k.
+Proof. exact multiwire_junction_overcount. Qed.
+Print Assumptions C06_multiwire_junction_overcount_refuted.
